@@ -1,4 +1,4 @@
-"""Yield-point instrumenter of the T2 sched-diff ties (table driven, plain text substitution on COPIES).
+"""Yield-point instrumenter of the T2 sched-diff ties (table driven, text substitution on COPIES of gofmt'd sources).
 
     instrument(table_path, workdir, repo) -> dict(
         overlay   = {original path under the tree: instrumented copy / added file},   (for `go test -overlay`)
@@ -6,12 +6,29 @@
         placed    = [entry ids], missing = [{id,label,file,why}], sentinels = [ids of sentinel entries that WERE placed],
         windows   = [ids of "window" entries placed (W labels: always placed, transparent in the comparison run)],
         multi     = {id of an "all" entry: number of occurrences instrumented},
+        via       = {entry id: "Recv.Helper"}  entries whose anchor was found in a helper the entry's function calls,
         acq_sites = ["<Recv.Func>#<ordinal>:<text>"]  every mutex acquisition found by text in the files of the table's
-                    "acquisitions" section (a line ending in one of its "suffixes"); each got `verifStep("A:<site>")` in front,
+                    "acquisitions" section (a line ending in one of its "suffixes"); each got `verifStep("A:<site>")` in front;
+                    <text> is the statement with its leading identifier (a local or receiver NAME) replaced by `*`,
         log       = [str])
 
 Never raises on an edited tree: an anchor that is not found is reported in `missing`, everything else is placed.
-The table format is described in harness/sched/anchors.json.
+The table format is described in harness/sched/anchors.json. What the matcher tolerates (an edit of these kinds must not
+make an anchor "missing"; anything else still does):
+
+  * names of locals, parameters and receivers: `$x` in 'func', 'match', 'match_any', the sentinel's 'open'/'close' and in
+    'insert' stands for ONE identifier. The first occurrence binds it (header first, then the match lines in order), later
+    occurrences must be the same identifier, 'insert' uses the binding. Text without `$` is literal, as before.
+  * trailing `// comments` on an anchor line, comment-only and blank lines between the lines of a multi-line match.
+  * a function header wrapped over several lines ('func' is matched against the header joined into one line; "where":
+    "body_start" puts the text after the line that opens the body).
+  * a statement wrapped over several lines: "before" goes in front of the statement's first line, "after" behind its last.
+  * "via_helpers": true — the anchor (a call) is not in the function itself but in ONE helper of the same file which the
+    function calls, and every caller of that helper in the file has an entry with the same label and match: the yield point
+    goes into the helper (once). A helper with other callers is not accepted: the label would be reached out of context.
+  * sentinels ("placed only when the mutex is NOT held at the anchor"): an `if ... { ...; unlock; return }` block that ends
+    in return / panic / continue / break / goto before the anchor does not count as releasing the mutex on the path that
+    reaches the anchor.
 """
 import json
 import os
@@ -63,44 +80,200 @@ def _copy_writable(src, dst):
                 pass
 
 
-def _func_extent(lines, header):
-    """(start, end) line indexes of the gofmt'd top-level function whose header line starts with `header`."""
-    for i, l in enumerate(lines):
-        if l.startswith(header):
-            for j in range(i + 1, len(lines)):
-                if lines[j].rstrip() == "}":
-                    return i, j
-            return i, len(lines) - 1
-    return None
+_IDENT = r"[A-Za-z_]\w*"
+_PH = re.compile(r"\$(" + _IDENT + ")")
+_TERMINATORS = ("return", "panic(", "continue", "break", "goto ", "os.Exit(", "log.Fatal")
 
 
-def _find(lines, lo, hi, match, nth, prefix, contains=False):
-    """index (absolute) of the first line of the nth occurrence of the consecutive stripped lines `match` in [lo, hi]."""
-    seen = 0
-    k = len(match)
-    for i in range(lo, hi - k + 2):
-        ok = True
-        for d in range(k):
-            s = lines[i + d].strip()
-            if (match[d] in s and not s.startswith("//")) if contains else (s.startswith(match[d]) if prefix else s == match[d]):
+def _cut(line):
+    """index at which a trailing // comment of the line starts (outside string and rune literals), else len(line)"""
+    i, q, n = 0, None, len(line)
+    while i < n:
+        c = line[i]
+        if q:
+            if c == "\\" and q != "`":
+                i += 2
                 continue
-            ok = False
-            break
-        if ok:
-            seen += 1
-            if seen == nth:
-                return i
+            if c == q:
+                q = None
+        elif c in "\"'`":
+            q = c
+        elif c == "/" and line[i + 1:i + 2] == "/":
+            return i
+        i += 1
+    return n
+
+
+def _code(line):
+    """the line without its trailing // comment, stripped ('' for blank and comment-only lines)"""
+    return line[:_cut(line)].strip()
+
+
+def _nostr(code):
+    """code with the contents of string / rune literals blanked (for counting brackets)"""
+    out, i, q, n = [], 0, None, len(code)
+    while i < n:
+        c = code[i]
+        if q:
+            if c == "\\" and q != "`":
+                i += 2
+                continue
+            if c == q:
+                q = None
+                out.append(c)
+        elif c in "\"'`":
+            q = c
+            out.append(c)
+        else:
+            out.append(c)
+        i += 1
+    return "".join(out)
+
+
+def _balance(code, opens="([{", closes=")]}"):
+    s = _nostr(code)
+    return sum(s.count(c) for c in opens) - sum(s.count(c) for c in closes)
+
+
+def _rx(pat, env, mode):
+    """regex of a table pattern: literal text with `$name` placeholders (one identifier each). mode exact|prefix|contains."""
+    seen, parts, pos = set(), [], 0
+    for m in _PH.finditer(pat):
+        parts.append(re.escape(pat[pos:m.start()]))
+        n = m.group(1)
+        if n in env:
+            parts.append(re.escape(env[n]))
+        elif n in seen:
+            parts.append("(?P=%s)" % n)
+        else:
+            seen.add(n)
+            parts.append("(?P<%s>%s)" % (n, _IDENT))
+        pos = m.end()
+    parts.append(re.escape(pat[pos:]))
+    body = "".join(parts)
+    if pat[:1] == "$" and mode == "contains":
+        body = r"(?<![\w.])" + body          # a placeholder at the start binds a whole identifier, not the tail of a selector
+    if (pat[-1:].isalnum() or pat[-1:] == "_") and mode != "exact":
+        body += r"(?!\w)"
+    return re.compile(body)
+
+
+def _match(pat, env, mode, code):
+    """bindings (dict, possibly empty) when the code line matches the pattern, else None"""
+    rx = _rx(pat, env, mode)
+    m = rx.fullmatch(code) if mode == "exact" else (rx.match(code) if mode == "prefix" else rx.search(code))
+    return None if m is None else {k: v for k, v in m.groupdict().items() if v is not None}
+
+
+def _subst(text, env):
+    """-> (text with `$name` replaced, [unbound names])"""
+    unbound = []
+
+    def f(m):
+        if m.group(1) in env:
+            return env[m.group(1)]
+        unbound.append(m.group(1))
+        return m.group(0)
+    return _PH.sub(f, text), unbound
+
+
+def _headers(lines):
+    """[(first, last, end, text)] of the gofmt'd top-level functions: `first..last` = header lines (last opens the body),
+    `end` = the line of the closing brace, text = the header joined into one line."""
+    out, i, n = [], 0, len(lines)
+    while i < n:
+        if not lines[i].startswith("func "):
+            i += 1
+            continue
+        text, bal, j = "", 0, i
+        while j < n:
+            c = _code(lines[j])
+            if c:
+                if not text or text.endswith("("):
+                    text += c
+                elif c.startswith(")"):
+                    text = text.rstrip(",") + c
+                else:
+                    text += " " + c
+            bal += _balance(c, "(", ")")
+            if bal <= 0 and (c.endswith("{") or c.endswith("}")):
+                break
+            j += 1
+        last = min(j, n - 1)
+        if _code(lines[last]).endswith("}") and _balance(_code(lines[last]), "{", "}") == 0 and last == i:
+            end = last                                   # one-line function
+        else:
+            end = last + 1
+            while end < n and lines[end].rstrip() != "}":
+                end += 1
+            end = min(end, n - 1)
+        out.append((i, last, end, text))
+        i = end + 1
+    return out
+
+
+def _func_name(text):
+    m = re.match(r"func\s+(?:\(\s*\w*\s*\*?\s*(\w+)[^)]*\)\s*)?(\w+)", text)
+    if not m:
+        return None
+    return (m.group(1) + "." if m.group(1) else "") + m.group(2)
+
+
+def _func_extent(lines, header, env=None):
+    """(first, last, end, bindings) of the top-level function whose (joined) header starts with the pattern `header`."""
+    for first, last, end, text in _headers(lines):
+        b = _match(header, env or {}, "prefix", text)
+        if b is not None:
+            return first, last, end, b
     return None
 
 
-def _find_all(lines, lo, hi, alts):
-    """indexes of every non-comment line in [lo, hi] that contains one of the texts `alts` (text order)."""
+def _mode(e):
+    return "contains" if e.get("contains") else ("prefix" if e.get("prefix") else "exact")
+
+
+def _find(lines, lo, hi, match, nth, mode, env):
+    """nth occurrence (1-based; negative: counted from the last) in [lo, hi] of the table lines `match` on consecutive CODE
+    lines (blank / comment-only lines in between are skipped). -> ([line index of every matched line], bindings) or None"""
+    occ = []
+    for i in range(lo, hi + 1):
+        c = _code(lines[i])
+        if not c:
+            continue
+        e2 = dict(env)
+        b = _match(match[0], e2, mode, c)
+        if b is None:
+            continue
+        e2.update(b)
+        idx, j, ok = [i], i, True
+        for pat in match[1:]:
+            j += 1
+            while j <= hi and not _code(lines[j]):
+                j += 1
+            if j > hi:
+                ok = False
+                break
+            b = _match(pat, e2, mode, _code(lines[j]))
+            if b is None:
+                ok = False
+                break
+            e2.update(b)
+            idx.append(j)
+        if ok:
+            occ.append((idx, {k: v for k, v in e2.items() if k not in env}))
+            if nth > 0 and len(occ) == nth:
+                return occ[-1]
+    if nth < 0 and len(occ) >= -nth:
+        return occ[nth]
+    return None
+
+
+def _find_all(lines, lo, hi, alts, env):
+    """indexes of every code line in [lo, hi] that contains one of the patterns `alts` (text order)."""
     out = []
     for i in range(lo, hi + 1):
-        t = lines[i].strip()
-        if t.startswith("//"):
-            continue
-        if any(a in t for a in alts):
+        c = _code(lines[i])
+        if c and any(_match(a, env, "contains", c) is not None for a in alts):
             out.append(i)
     return out
 
@@ -108,25 +281,17 @@ def _find_all(lines, lo, hi, alts):
 def _funcs(lines):
     """[(name, start, end)] of the gofmt'd top-level functions; methods are named Recv.Func."""
     out = []
-    i = 0
-    while i < len(lines):
-        l = lines[i]
-        if l.startswith("func "):
-            m = re.match(r"func\s+(?:\(\s*\w*\s*\*?\s*(\w+)[^)]*\)\s*)?(\w+)", l)
-            name = None
-            if m:
-                name = (m.group(1) + "." if m.group(1) else "") + m.group(2)
-            j = i
-            if not l.rstrip().endswith("}"):
-                j = i + 1
-                while j < len(lines) and lines[j].rstrip() != "}":
-                    j += 1
-            if name:
-                out.append((name, i, min(j, len(lines) - 1)))
-            i = j + 1
-        else:
-            i += 1
+    for first, _last, end, text in _headers(lines):
+        name = _func_name(text)
+        if name:
+            out.append((name, first, end))
     return out
+
+
+def _site_text(code):
+    """an acquisition statement with its leading identifier (the NAME of a local / receiver) replaced by `*`"""
+    t = re.sub(r"^" + _IDENT + r"(?=\.)", "*", code)
+    return t.replace(" ", "_").replace('"', "")
 
 
 def _acq_pass(lines, suffixes):
@@ -136,12 +301,12 @@ def _acq_pass(lines, suffixes):
     for name, lo, hi in _funcs(lines):
         n = 0
         for i in range(lo + 1, hi + 1):
-            t = lines[i].strip()
-            if not t or t.startswith("//") or t.startswith("defer ") or t.startswith("go ") or "verifStep(" in t:
+            t = _code(lines[i])
+            if not t or t.startswith("defer ") or t.startswith("go ") or "verifStep(" in t:
                 continue
             if any(t.endswith(sfx) for sfx in suffixes):
                 n += 1
-                site = "%s#%d:%s" % (name, n, t.replace(" ", "_").replace('"', ""))
+                site = "%s#%d:%s" % (name, n, _site_text(t))
                 sites.append(site)
                 inserts.append((i, _indent(lines[i]) + 'verifStep("A:%s")' % site))
     for i, text in sorted(inserts, reverse=True):
@@ -149,14 +314,49 @@ def _acq_pass(lines, suffixes):
     return lines, sites
 
 
-def _held_at(lines, lo, anchor, opn, close):
-    held = False
-    for i in range(lo, anchor):
-        s = lines[i].strip()
-        if s == opn:
+def _blocks(lines, lo, hi):
+    """{opening line: closing line} of the brace blocks inside [lo, hi] (gofmt: a block opens on a line ending in `{` and
+    closes on a line starting with `}`; `} else {` does both)."""
+    out, stack = {}, []
+    for i in range(lo, hi + 1):
+        c = _code(lines[i])
+        if not c:
+            continue
+        if c.startswith("}") and stack:
+            out[stack.pop()] = i
+        if c.endswith("{"):
+            stack.append(i)
+    return out
+
+
+def _terminates(lines, opn, close):
+    """the block (opn, close) ends in a statement after which control does not reach the code behind the block"""
+    for i in range(close - 1, opn, -1):
+        c = _code(lines[i])
+        if c:
+            return c == "return" or c.startswith("return ") or any(c.startswith(t) for t in _TERMINATORS[1:])
+    return False
+
+
+def _held_at(lines, lo, anchor, opn, close, env):
+    """Is the mutex (acquired by a line `opn`, released by a line `close`; exact patterns) held on the path that reaches
+    the anchor line? Straight-line reading of the function's text, except that a block which ends before the anchor and
+    cannot fall through (return / panic / continue / break at its end) is skipped: what it releases is not released on
+    the path that goes on to the anchor."""
+    blocks = _blocks(lines, lo, anchor)
+    held, i = False, lo + 1
+    while i < anchor:
+        c = _code(lines[i])
+        j = blocks.get(i)
+        if c.endswith("{") and j is not None and j < anchor and _terminates(lines, i, j):
+            # skip the block; its closing line may open an else block (`} else {`): that one is looked at next
+            i = j if _code(lines[j]).endswith("{") else j + 1
+            continue
+        if c and _match(opn, env, "exact", c) is not None:
             held = True
-        elif s == close:
+        elif c and _match(close, env, "exact", c) is not None:
             held = False
+        i += 1
     return held
 
 
@@ -164,11 +364,76 @@ def _indent(line):
     return line[:len(line) - len(line.lstrip("\t "))]
 
 
+def _stmt_first(lines, lo, a):
+    """first line of the statement that line `a` (inside the function body starting at `lo`) is part of: a call wrapped over
+    several lines. The body of a func literal / composite literal inside a call's arguments starts afresh."""
+    start, stack, d = {}, [], 0
+    opener = {}
+    for i in range(lo, a + 1):
+        c = _code(lines[i])
+        if c.startswith("}") and stack:
+            o, d = stack.pop()
+            opener[i] = o
+        start[i] = d
+        d += _balance(c, "([", ")]")
+        if c.endswith("{"):
+            stack.append((i, d))
+            d = 0
+    while a > lo and start.get(a, 0) > 0:
+        a -= 1
+        if a in opener:
+            a = opener[a]
+    return a
+
+
+def _stmt_last(lines, a, hi):
+    """last line of the statement that starts on line `a`"""
+    d = _balance(_code(lines[a]), "([", ")]")
+    while d > 0 and a < hi:
+        a += 1
+        d += _balance(_code(lines[a]), "([", ")]")
+    return a
+
+
+def _calls(lines, lo, hi, name):
+    """does the text of [lo, hi] call the function / method `name`?"""
+    rx = re.compile(r"(?<![\w])" + re.escape(name) + r"\(")
+    return any(rx.search(_code(lines[i])) for i in range(lo + 1, hi + 1))
+
+
+def _via_helper(lines, e, entries, lo, hi):
+    """The anchor of entry e is not in its own function [lo, hi]: look for it in the helpers that function calls.
+    -> (first, last, end, header bindings, helper name) or (None, why)"""
+    cands = []
+    for first, last, end, text in _headers(lines):
+        nm = _func_name(text)
+        if not nm or first == lo:
+            continue
+        short = nm.split(".")[-1]
+        if not _calls(lines, lo, hi, short):
+            continue
+        if _find(lines, last + 1, end, e["match"], 1, _mode(e), {}) is not None:
+            cands.append((first, last, end, nm, short))
+    if not cands:
+        return None, "anchor %r not found in %s nor in a helper it calls" % (e["match"], e["func"])
+    if len(cands) > 1:
+        return None, "anchor %r found in several helpers called by %s: %s" % (e["match"], e["func"], [c[3] for c in cands])
+    first, last, end, nm, short = cands[0]
+    # every caller of the helper in this file must want the same label at the same anchor
+    accepting = [x["func"] for x in entries if x.get("label") == e.get("label") and x.get("match") == e.get("match") and x.get("via_helpers")]
+    for f2, l2, e2, t2 in _headers(lines):
+        if f2 == first or not _calls(lines, f2, e2, short):
+            continue
+        if not any(_match(h, {}, "prefix", t2) is not None for h in accepting):
+            return None, "anchor %r is in helper %s, which is also called from %s (no %s entry there)" % (e["match"], nm, _func_name(t2), e.get("label"))
+    return (first, last, end, nm), ""
+
+
 def instrument(table_path, workdir, repo):
     workdir = Path(workdir)
     repo = Path(repo)
     tab = json.loads(Path(table_path).read_text())
-    out = dict(overlay={}, replaces={}, placed=[], missing=[], sentinels=[], windows=[], multi={}, acq_sites=[], log=[])
+    out = dict(overlay={}, replaces={}, placed=[], missing=[], sentinels=[], windows=[], multi={}, via={}, acq_sites=[], log=[])
     roots = {"repo": repo}
     inst_root = workdir / "instr"
     shutil.rmtree(inst_root, ignore_errors=True)
@@ -208,45 +473,117 @@ def instrument(table_path, workdir, repo):
                     out["missing"].append(dict(id=e["id"], label=e["label"], file=rel, why="unreadable: %s" % ex))
             continue
         edits = []  # (line index, kind, text lines, entry)
+
+        def miss(e, why):
+            if not e.get("sentinel"):
+                out["missing"].append(dict(id=e["id"], label=e["label"], file=rel, why=why))
+            else:
+                out["log"].append("sentinel %s not placed: %s" % (e["id"], why))
+
+        def text_of(e, ind, env, n_=None):
+            raw = e["insert"] if n_ is None else e["insert"].replace("{n}", str(n_))
+            raw, unbound = _subst(raw, env)
+            if unbound:
+                return None, "insert text uses %s, which the match did not bind" % ", ".join("$" + u for u in unbound)
+            return [ind + t if t else t for t in raw.split("\n")], ""
+
         for e in entries:
-            ext = _func_extent(lines, e["func"])
-            if ext is None:
-                if not e.get("sentinel"):
-                    out["missing"].append(dict(id=e["id"], label=e["label"], file=rel, why="function %r not found" % e["func"]))
-                continue
-            lo, hi = ext
-            if e.get("all"):
-                # every occurrence of one of the texts inside the function is instrumented; {n} = ordinal in text order
-                hits = _find_all(lines, lo, hi, e["match_any"])
-                if not hits:
-                    out["missing"].append(dict(id=e["id"], label=e["label"], file=rel, why="none of %r found in %s" % (e["match_any"], e["func"])))
+            try:
+                ext = _func_extent(lines, e["func"])
+                if ext is None:
+                    miss(e, "function %r not found" % e["func"])
                     continue
-                out["multi"][e["id"]] = len(hits)
-                for n_, a in enumerate(hits, 1):
-                    ind = _indent(lines[a])
-                    text = [ind + t if t else t for t in e["insert"].replace("{n}", str(n_)).split("\n")]
-                    edits.append((a, e.get("where", "before"), text, dict(e, id="%s#%d" % (e["id"], n_))))
-                continue
-            i = _find(lines, lo, hi, e["match"], int(e.get("nth", 1)), bool(e.get("prefix")), bool(e.get("contains")))
-            if i is None:
-                if not e.get("sentinel"):
-                    out["missing"].append(dict(id=e["id"], label=e["label"], file=rel, why="anchor %r not found in %s" % (e["match"], e["func"])))
-                continue
-            a = i + int(e.get("at", 0))
-            if e.get("sentinel"):
-                if _held_at(lines, lo, a, e["sentinel"]["open"], e["sentinel"]["close"]):
+                first, last, hi, env = ext
+                lo = first
+                unbound_bind = None
+                for bp in e.get("bind", []):
+                    fb = _find(lines, last + 1, hi, [bp], 1, "exact", env)
+                    if fb is None:
+                        unbound_bind = bp
+                        break
+                    env = dict(env, **fb[1])
+                if unbound_bind is not None:
+                    miss(e, "statement %r (which names the anchor's variables) not found in %s" % (unbound_bind, e["func"]))
                     continue
-                out["sentinels"].append(e["id"])
-                out.setdefault("sentinel_concerns", {})[e["id"]] = e["sentinel"].get("concerns") or []
-            if e.get("window"):
-                out["windows"].append(e["id"])
-            where = e["where"]
-            ind = _indent(lines[a])
-            if where == "after" and (lines[a].rstrip().endswith("{") or lines[a].rstrip().endswith(":")):
-                ind += "\t"
-            text = [ind + t if t else t for t in e["insert"].split("\n")]
-            edits.append((a, where, text, e))
+                if e.get("all"):
+                    # every occurrence of one of the texts inside the function is instrumented; {n} = ordinal in text order
+                    hits = _find_all(lines, last + 1, hi, e["match_any"], env)
+                    if not hits:
+                        out["missing"].append(dict(id=e["id"], label=e["label"], file=rel, why="none of %r found in %s" % (e["match_any"], e["func"])))
+                        continue
+                    out["multi"][e["id"]] = len(hits)
+                    for n_, a in enumerate(hits, 1):
+                        a = _stmt_first(lines, last + 1, a)
+                        text, why = text_of(e, _indent(lines[a]), env, n_)
+                        if text is None:
+                            miss(e, why)
+                            break
+                        edits.append((a, e.get("where", "before"), text, dict(e, id="%s#%d" % (e["id"], n_))))
+                    continue
+                if e.get("where") == "body_start":
+                    text, why = text_of(e, "\t", env)
+                    if text is None:
+                        miss(e, why)
+                        continue
+                    edits.append((last, "after", text, e))
+                    continue
+                header_is_anchor = len(e["match"]) == 1 and e["match"][0] == e["func"] and e.get("where") == "after"
+                if header_is_anchor:
+                    text, why = text_of(e, "\t", env)
+                    if text is None:
+                        miss(e, why)
+                        continue
+                    edits.append((last, "after", text, e))
+                    continue
+                found = _find(lines, last + 1, hi, e["match"], int(e.get("nth", 1)), _mode(e), env)
+                if found is None and e.get("via_helpers") and not e.get("sentinel"):
+                    h, why = _via_helper(lines, e, entries, first, hi)
+                    if h is None:
+                        miss(e, why)
+                        continue
+                    first, last, hi, helper = h
+                    lo, env = first, {}
+                    found = _find(lines, last + 1, hi, e["match"], 1, _mode(e), env)
+                    out["via"][e["id"]] = helper
+                if found is None:
+                    miss(e, "anchor %r not found in %s" % (e["match"], e["func"]))
+                    continue
+                idx, b = found
+                env = dict(env, **b)
+                a = idx[int(e.get("at", 0))]
+                if e.get("sentinel"):
+                    if _held_at(lines, lo, a, e["sentinel"]["open"], e["sentinel"]["close"], env):
+                        continue
+                    out["sentinels"].append(e["id"])
+                    out.setdefault("sentinel_concerns", {})[e["id"]] = e["sentinel"].get("concerns") or []
+                if e.get("window"):
+                    out["windows"].append(e["id"])
+                where = e["where"]
+                if where == "before":
+                    a = _stmt_first(lines, last + 1, a)
+                elif where == "after":
+                    a = _stmt_last(lines, a, hi)
+                elif where == "replace" and _stmt_last(lines, a, hi) != a:
+                    miss(e, "the statement to replace (%r) is wrapped over several lines" % (e["match"],))
+                    continue
+                ind = _indent(lines[a])
+                ca = _code(lines[a])
+                if where == "after" and (ca.endswith("{") or ca.endswith(":")):
+                    ind += "\t"
+                text, why = text_of(e, ind, env)
+                if text is None:
+                    miss(e, why)
+                    continue
+                edits.append((a, where, text, e))
+            except Exception as ex:  # noqa  (a table entry the matcher cannot digest is a missing anchor, never a crash)
+                miss(e, "matcher failed: %r" % (ex,))
+        done = set()
         for a, where, text, e in sorted(edits, key=lambda x: (-x[0], 0 if x[1] == "after" else 1)):
+            key = (a, where, tuple(text))
+            if key in done:
+                out["placed"].append(e["id"])      # two entries resolved to the same place (a shared helper): one insert
+                continue
+            done.add(key)
             if where == "before":
                 lines[a:a] = text
             elif where == "after":
